@@ -18,6 +18,7 @@ from spil.sid.sid import Sid
 from spil.util.caching import lru_cache
 
 from spil.util.log import info, warning, debug
+from spil.util.exception import SpilException
 from spil.sid.core import sid_resolver
 from spil.sid.core.query_helper import apply_query
 from spil.sid.pathops import fs_resolver
@@ -113,6 +114,16 @@ def path_to_sid(path: str | os.Pathlike[str], config: Optional[str]) -> Sid | No
 
     if not fields:
         info(f"Path [{path}] did not resolve to valid Sid fields (config_name:{config}.")
+        return None
+
+    # The literal parts of a path template are used as a regular expression (a "." matches any character),
+    # so we only accept a path that the resolved fields format back to.
+    try:
+        formatted = fs_resolver.dict_to_path(fields, _type, config=config)
+    except SpilException:
+        formatted = None
+    if formatted is None or formatted.as_posix() != str(path).replace(os.sep, "/"):
+        info(f"Path [{path}] does not format back from the resolved fields {fields} (config_name:{config}.")
         return None
 
     # Now getting sid
